@@ -38,11 +38,11 @@ func c07Size(k string) int {
 	if strings.HasSuffix(k, "/") {
 		return 0
 	}
-	h := 0
+	h := uint32(0)
 	for i := 0; i < len(k); i++ {
-		h = h*31 + int(k[i])
+		h = h*31 + uint32(k[i])
 	}
-	return h % 4
+	return int(h % 4)
 }
 func c07Etag(k string) string { return "E" + k }
 
@@ -353,16 +353,16 @@ func c07AllKeySets(alphabet []byte, maxLen, maxKeys int) [][]string {
 // minimal failing inputs of every known defect class + regression seeds; run first
 func c07Corpus() []c07Case {
 	return []c07Case{
-		{Keys: []string{"a/x", "a.b"}, Max: 1},                                       // order-incompatible siblings
-		{Keys: []string{"a/x", "a.b"}, Max: 10},                                      //
-		{Keys: []string{"a/b", "a/c"}, Delim: "/", Marker: "a/b", Max: 10},           // marker inside a common prefix
-		{Keys: []string{"a/b"}, Delim: "/", Marker: "a", Max: 10},                    // marker prefixing a common prefix
-		{Keys: []string{"a-b", "a-c", "b"}, Delim: "-", Max: 1},                      // non-'/' delimiter, own NextMarker
-		{Keys: []string{"a-b", "a"}, Delim: "-", Marker: "a", Max: 10},               //
-		{Keys: []string{"a/", "b"}, Max: 1},                                          // directory object, delimiter ""
-		{Keys: []string{"a/", "a/b"}, Prefix: "a/b", Max: 10},                        //
-		{Keys: []string{"a/", "a/b"}, Prefix: "a/", Delim: "/", Max: 10},             // directory object with children
-		{Keys: []string{"x/0", "x/z"}, Skip: []string{"0"}, Max: 10},                 // file named like a skipdir
+		{Keys: []string{"a/x", "a.b"}, Max: 1},                                  // order-incompatible siblings
+		{Keys: []string{"a/x", "a.b"}, Max: 10},                                 //
+		{Keys: []string{"a/b", "a/c"}, Delim: "/", Marker: "a/b", Max: 10},      // marker inside a common prefix
+		{Keys: []string{"a/b"}, Delim: "/", Marker: "a", Max: 10},               // marker prefixing a common prefix
+		{Keys: []string{"a-b", "a-c", "b"}, Delim: "-", Max: 1},                 // non-'/' delimiter, own NextMarker
+		{Keys: []string{"a-b", "a"}, Delim: "-", Marker: "a", Max: 10},          //
+		{Keys: []string{"a/", "b"}, Max: 1},                                     // directory object, delimiter ""
+		{Keys: []string{"a/", "a/b"}, Prefix: "a/b", Max: 10},                   //
+		{Keys: []string{"a/", "a/b"}, Prefix: "a/", Delim: "/", Max: 10},        // directory object with children
+		{Keys: []string{"x/0", "x/z"}, Skip: []string{"0"}, Max: 10},            // file named like a skipdir
 		{Keys: []string{"0/m/x", "y"}, Skip: []string{"0"}, Prefix: "0/m/", Max: 10}, // prefix below the skipdir
 		{Keys: []string{"0/m/x", "y"}, Skip: []string{"0"}, Max: 10},
 		{Keys: []string{"photos/2006/Jan/a.jpg", "photos/2006/Feb/b.jpg", "sample.jpg"}, Delim: "/", Max: 1},
@@ -589,6 +589,6 @@ func c07Evaluate(res *lib.Result, c c07Case, pages []c07Page, verdict string) {
 
 func init() {
 	checks["c07"] = checkDef{"C07",
-		"(key set, skip list, prefix, delimiter, marker, max) → real backend.Walk on fstest.MapFS, pages followed to the end. Corpus of minimal witnesses; exhaustive over all representable key sets over {a,-,/} (quick: ≤2 keys of length ≤2, prefixes/markers of length ≤1; thorough: ≤3 keys of length ≤3, prefixes/markers of length ≤2) × delimiters {\"\",/,-,a,//,a/} × max 0..4; random key sets over {a,b,-,.,/,0} (≤5 keys of length ≤4, nested/near-colliding names favoured; thorough also ≤7 keys of length ≤6), prefixes/markers derived from keys or random, 25% with skip list [\"0\"]. Non-trivial = non-empty key set and max > 0; distinct by the whole input.",
-		[]checkFn{c07Walk}}
+		"(key set, skip list, prefix, delimiter, marker, max) → real backend.Walk on fstest.MapFS, pages followed to the end. Corpus of minimal witnesses; exhaustive over all representable key sets over {a,-,/} (quick: ≤2 keys of length ≤2, prefixes/markers of length ≤1; thorough: ≤3 keys of length ≤3, prefixes/markers of length ≤2) × delimiters {\"\",/,-,a,//,a/} × max 0..4; random key sets over {a,b,-,.,/,0} (≤5 keys of length ≤4, nested/near-colliding names favoured; thorough also ≤7 keys of length ≤6), prefixes/markers derived from keys or random, 25% with skip list [\"0\"]. End to end: ListObjects V1/V2 on a real gateway (posix) over scenario and random key sets with true sizes and the PUTs' ETags, pages followed through NextMarker / NextContinuationToken, same judge. Non-trivial = non-empty key set and max > 0; distinct by the whole input.",
+		[]checkFn{c07Walk, c07E2E}}
 }
